@@ -13,6 +13,10 @@ Expected(e) ==
     [] e.kind = "using"  -> TextRows(UsingJoin(e.jk, e.L, e.R, e.ul, e.ur, e.wl, e.wr))
     \* SELECT proj2 FROM (SELECT proj FROM t WHERE cond) s WHERE cond2   (also as WITH s AS (...))
     [] e.kind = "nested" -> TextRows(Project(Filter(Project(Filter(e.in, e.cond), e.proj), e.cond2), e.proj2))
+    \* WITH s AS (SELECT proj FROM t WHERE cond) SELECT proj2 FROM s WHERE cond2 UNION ALL SELECT proj3 FROM s :
+    \* every reference to s sees the same rows
+    [] e.kind = "cte2"   -> LET S == Project(Filter(e.in, e.cond), e.proj) IN
+                            TextRows(Project(Filter(S, e.cond2), e.proj2)) \o TextRows(Project(S, e.proj3))
 
 SetOpRows(e) ==
   CASE e.op = "union" /\ ~e.all     -> UnionD(e.A, e.B)
@@ -84,7 +88,7 @@ AnalyticOK(e) ==
 
 Accept(e) ==
   CASE e.kind = "sort"     -> WindowOK(e.in, e.res, e.keys, e.m, e.lim, e.ties, e.idc)
-    [] e.kind \in {"filter", "nested"} -> TextRows(e.res) = Expected(e)
+    [] e.kind \in {"filter", "nested", "cte2"} -> TextRows(e.res) = Expected(e)
     [] e.kind \in {"join", "using"} -> IF e.ordered THEN TextRows(e.res) = Expected(e) ELSE SameBag(TextRows(e.res), Expected(e))
     [] e.kind = "distinct" -> /\ BucketsOK(e.keys, e.res)
                               /\ Decided(e.keys) => TextRows(e.res) = TextRows(FirstOfBuckets(e.keys))
